@@ -251,14 +251,16 @@ pub struct Builder {
     finals: HashMap<Rc<RT>, Arc<Final>>,
     pub merkle: Merkle,
     pub fam: Fam,
+    /// pin every node's arrow to the term's annotation (default); off = leave inference alone
+    pub pin: bool,
 }
 
 impl Builder {
     pub fn new() -> Self {
-        Builder { finals: HashMap::new(), merkle: Merkle::default(), fam: Fam::Core }
+        Builder { finals: HashMap::new(), merkle: Merkle::default(), fam: Fam::Core, pin: true }
     }
     pub fn with_family(fam: Fam) -> Self {
-        Builder { finals: HashMap::new(), merkle: Merkle::default(), fam }
+        Builder { finals: HashMap::new(), merkle: Merkle::default(), fam, pin: true }
     }
     pub fn fin(&mut self, t: &Rc<RT>) -> Arc<Final> {
         if let Some(f) = self.finals.get(t) {
@@ -300,6 +302,9 @@ impl Builder {
                 CNode::disconnect(&x, &Some(y)).map_err(e)?
             }
         };
+        if !self.pin {
+            return Ok(node);
+        }
         // pin the arrow of this node to the annotated types
         let (fs, ft) = (self.fin(&t.src), self.fin(&t.tgt));
         ctx.unify(&node.arrow().source, &Type::complete(ctx, fs), "harness: pin source").map_err(|x| format!("annotated source type of {} rejected: {x}", t.render()))?;
